@@ -21,7 +21,7 @@ RULE = ('(a) random trees (depth <= 4, 0-4 children, rule names incl. `_x`, thre
         'transformer classes on rule names / aliases / template names / terminals: Lark(g, parser=lalr, transformer=T()) '
         '.parse(x) == T().transform(Lark(g, parser=lalr).parse(x)), and the Coq embedded model on the derivation lark '
         'followed gives the same value - over lexer in {contextual, basic}, propagate_positions on/off, the same '
-        'class variants and constructor modes (visit_tokens=False only without terminal callbacks: F42); '
+        'class variants and constructor modes (incl. visit_tokens=False with terminal callbacks: F42 regression); '
         '(d) TransformerChain T1*T2 over the four classes against the composed reference; (c) python-only: the four classes on DAG-shaped inputs (shared sub-objects). '
         'non-trivial = distinct (tree, transformer) with >= 3 nodes / distinct (grammar, config, text, transformer)')
 TRUSTED_BASE = ['hand model Shape/Transform.v of visitors.py (tied by value and call log on every case); in-place variants '
@@ -37,7 +37,6 @@ IMPORTS = 'From LV Require Import Base.Prelude Shape.Chain Shape.Spec Shape.Tran
 
 RULE_POOL = ['a', 'b', 'c', '_x', 'start']
 TOK_POOL = ['A', 'B', 'N']
-VT_KEY = 'F42:embedded-ignores-visit_tokens-False'     # provisional number, see report
 BASES = ['Transformer', 'Transformer_NonRecursive', 'Transformer_InPlace', 'Transformer_InPlaceRecursive']
 
 
@@ -331,8 +330,6 @@ def correspond(ctx):
             variant = rng.choice(VARIANTS)
             choices = [rng.randrange(3) for _ in range(99)]
             mode = rng.choice(['default', 'default', 'kw_true', 'own_init', 'kw_false', 'own_init_cls_false'])
-            if not MODES[mode]:
-                toks = []       # visit_tokens=False with terminal callbacks is the known finding F42 (exotic stream)
             wit = {'grammar': G.text, 'text': text, 'keep_all_tokens': ka, 'maybe_placeholders': mp, 'base': base,
                    'variant': variant, 'rules': rules, 'toks': toks, 'choices': choices[:len(rules)], 'mode': mode,
                    'lexer': lexer, 'propagate_positions': pp}
@@ -349,8 +346,8 @@ def correspond(ctx):
                 lit = sl.dtree_lit(d, cache)
                 byid = {id(r): r for r in plain.rules}
                 lets = ''.join('let %s := %s in ' % (nm, sl.rrec_lit(sl.rrec_of_rule(byid[k]))) for k, nm in cache.items())
-                cases.append('((%s(%s, %s, %s, %s, %s, %s)) : emb_case)' % (lets, L([S(n) for n in rules]), L([S(k) for k in toks]),
-                                                              sl.B(mp), lit, sl.value_lit(emb), sl.stree_lit(sl.stree_of(tree))))
+                cases.append('((%s(%s, %s, %s, %s, %s, %s, %s)) : emb_case)' % (lets, L([S(n) for n in rules]), L([S(k) for k in toks]),
+                                                              sl.B(MODES[mode]), sl.B(mp), lit, sl.value_lit(emb), sl.stree_lit(sl.stree_of(tree))))
                 meta.append(wit)
         if got_one:
             done += 1
@@ -378,13 +375,13 @@ def correspond(ctx):
             ctx.violation('correspondence:Shape/Transform.embedded vs Lark(transformer=T)',
                           dict(m, no_longer_checks='Coq embedded model on the LALR derivation == value lark returned'), False,
                           'Coq embedded model differs from the value lark returned (embedded == post-hoc still holds on this case)')
-    # (x2) exotic: the embedded parser installs terminal callbacks even for T(visit_tokens=False)
+    # (x2) regression F42 (fixed): the embedded parser must not install terminal callbacks for T(visit_tokens=False)
     wit = {'grammar': g0, 'text': 'ab', 'keep_all_tokens': False, 'maybe_placeholders': True, 'base': 'Transformer',
            'variant': 'plain', 'rules': ['a'], 'toks': ['A'], 'choices': [0], 'mode': 'kw_false'}
     bad, emb, post = embedded_vs_posthoc(wit)
-    ctx.count('exotic-embedded-visit_tokens', key='F42')
-    if bad:
-        ctx.violation('embedded-vs-posthoc', wit, True, bad, key=VT_KEY)
+    ctx.count('regress-F42', key='F42')
+    if bad:       # F42 was fixed in /repo: an ordinary violation if it comes back
+        ctx.violation('embedded-vs-posthoc', wit, True, bad)
     # (x) exotic: a Transformer_InPlace subclass as embedded transformer (create_callback passes a Tree) ------------
     g = 'start: a B\na: A\nA: "a"\nB: "b"\n'
     wit = {'grammar': g, 'text': 'ab', 'keep_all_tokens': False, 'maybe_placeholders': True, 'base': 'Transformer_InPlace',
